@@ -38,9 +38,12 @@ fn plan_c01(o: &Opts) -> Vec<GroupSpec> {
          let mut r = rng_for("C01", o.seed, i as u64);
          let prog = gen::gen_core(&mut r, &cfg);
          let base = format!("C01-s{}-{}", o.seed, i);
-         GroupSpec {
-            members: vec![MemberSpec { prog, opts: PrintOpts::plain(Kind::Ascent), meta: meta(&base, "ser", Kind::Ascent, true) }],
+         let mut members = vec![MemberSpec { prog: prog.clone(), opts: PrintOpts::plain(Kind::Ascent), meta: meta(&base, "ser", Kind::Ascent, true) }];
+         // the property does not depend on the macro form: every third program also as ascent_par! (pool of 4 threads)
+         if i % 3 == 2 && gen::par_rejects(&prog).is_none() {
+            members.push(MemberSpec { prog, opts: PrintOpts::plain(Kind::AscentPar), meta: meta(&base, "par", Kind::AscentPar, false) });
          }
+         GroupSpec { members }
       })
       .collect()
 }
@@ -53,8 +56,9 @@ fn plan_simple(o: &Opts, prop: &str, quick: usize, thorough: usize, f: impl Fn(&
          let prog = f(&mut r);
          let base = format!("{prop}-s{}-{}", o.seed, i);
          let mut members = vec![MemberSpec { prog: prog.clone(), opts: PrintOpts::plain(Kind::Ascent), meta: meta(&base, "ser", Kind::Ascent, true) }];
-         // C04: every second program also in its parallel form (aggregates and negation read other index types there)
-         if prop == "C04" && i % 2 == 1 && gen::par_rejects(&prog).is_none() {
+         // C03 / C04: every second program also in its parallel form (lattices, aggregates and negation use other index
+         // types and another head update there)
+         if (prop == "C04" || prop == "C03") && i % 2 == 1 && gen::par_rejects(&prog).is_none() {
             members.push(MemberSpec { prog, opts: PrintOpts::plain(Kind::AscentPar), meta: meta(&base, "par", Kind::AscentPar, false) });
          }
          GroupSpec { members }
